@@ -209,6 +209,13 @@ const preludeTmpl = `(set-option :produce-models true)
 (declare-datatypes ((Slice 0)) (((mk-slice (s-arr Ref) (s-off Int) (s-len Int) (s-cap Int)))))
 (declare-datatypes ((Str 0)) (((mk-str (str-len Int) (str-data (Array Int Int))))))
 (define-fun nil_slice () Slice (mk-slice null 0 0 0))
+(declare-fun card ((Array Ref Bool)) Int)
+(declare-fun fin ((Array Ref Bool)) Bool)
+(define-fun emptyset () (Array Ref Bool) ((as const (Array Ref Bool)) false))
+(assert (and (fin emptyset) (= (card emptyset) 0)))
+(assert (forall ((S (Array Ref Bool)) (c Ref) (b Bool)) (! (=> (fin S) (and (fin (store S c b)) (= (card (store S c b)) (+ (card S) (ite (and b (not (select S c))) 1 0) (ite (and (not b) (select S c)) (- 1) 0))))) :pattern ((card (store S c b))) :pattern ((fin (store S c b))))))
+(assert (forall ((S (Array Ref Bool))) (! (=> (fin S) (>= (card S) 0)) :pattern ((card S)))))
+(assert (forall ((S (Array Ref Bool)) (c Ref)) (! (=> (and (fin S) (select S c)) (>= (card S) 1)) :pattern ((select S c) (card S)))))
 (define-fun slen ((s Str)) Int (ite (< (str-len s) 0) 0 (str-len s)))
 @@FUNS@@
 (define-fun gorem ((x Int) (y Int)) Int (ite (>= x 0) (mod x (abs y)) (- (mod (- x) (abs y)))))
